@@ -411,7 +411,12 @@ pub fn features(op: &str, input: &Sexp, output: &Sexp) -> Vec<&'static str> {
     if op.starts_with("problem_") || op == "chain_emit" {
         problem_features(input, output, &mut fs);
     }
-    if op.contains("parse") || op.contains("roundtrip") || op.contains("text") || op.contains("lex") || op.starts_with("cli_") {
+    const TEXT_OPS: &[&str] = &[
+        "fol_parse_", "fol_roundtrip_text", "fol_output_reparses", "asp_parse", "asp_roundtrip_text", "asp_node_roundtrip",
+        "asp_leaf_roundtrip", "cli_", "text_theory_roundtrip", "gen_text_", "numeral_token", "arity_token", "status_from_str",
+        "natural_text", "fol_lex", "asp_lex",
+    ];
+    if TEXT_OPS.iter().any(|p| op.starts_with(p)) {
         text_features(input, &mut fs);
     }
     // an empty quantifier block anywhere in the input
